@@ -14,9 +14,18 @@ code->spec : every real execution (replayed behaviours, directed schedules, seed
              with schedule perturbation, slow/failing/timing-out exporters and cancelled / expiring caller
              contexts) is recorded as ndjson and validated by TLC against the total contract monitor
              BSPContract.tla (Trace_BSP.tla).
+impl-trace : Trace_BSPImpl.tla: a sample of the same recorded executions (replayed behaviours, directed schedules,
+             the first random scenarios; they also carry one `Pt` line per verif hook point passed) must be
+             explainable by the ACTIONS of BSP.tla itself -- exact lines (Call/Ret, ExportBegin/End under
+             batchMutex), confirmation lines (every bsp.* hook: after the step, no lock), TLC infers the unlogged
+             steps (depth first, high-water mark), BSP.tla's invariants stay on. A trace the contract accepts but
+             BSP.tla cannot explain is MODEL DRIFT: counted, reported (evidence + NOTE), never a verdict.
 """
 import json
 import os
+import random
+import time
+from concurrent.futures import ThreadPoolExecutor
 
 S = "BSP"
 ALL = ("ok", "error", "timeout")
@@ -179,6 +188,11 @@ DIRECTED = [
                                  "w@bsp.worker.dequeued:p1:2", "w@bsp.worker.appended:p1:2", "w@bsp.worker.dequeued:p1:3",
                                  "w@bsp.worker.appended:p1:3", "x@exp.begin", "x@exp.end", "f1@bsp.ff.flushed"] +
          ends("p1:4") + ["w@bsp.worker.dequeued:p1:4", "w@bsp.worker.appended:p1:4", "x@exp.begin", "x@exp.end", "s1@call"]),
+    # ---- free-running (empty script, no jitter): four Shutdown calls race for sync.Once. The caller that runs the body
+    # is not always the one whose call began first (about 2 in 1000): BSP.tla's SCall / SOnce are two steps because
+    # the implementation-level trace validation could not explain `bsp.sd.stopped` passed by a later caller
+    dict(name="racing-shutdowns", producers=1, spansPer=1, qcap=2, maxbatch=2, flushers=0, stoppers=4, perturb=0.9, reps=100,
+         script=[]),
     dict(name="timer-vs-shutdown", producers=1, spansPer=2, qcap=4, maxbatch=4, flushers=0, stoppers=1, batchTimeoutUs=1500,
          script=ends("p1:1") + ["w@bsp.worker.dequeued:p1:1", "w@bsp.worker.appended:p1:1", "x@exp.begin"] + ends("p1:2") +
          ["s1@call", "s1@bsp.sd.stopped", "s1@bsp.sd.closed", "x@exp.end", "w@bsp.drain.empty"]),
@@ -187,6 +201,176 @@ DIRECTED = [
 EXPECT = {"D1-flush-during-shutdown": "flush-missed-during-shutdown", "D4-enqueue-after-drain": "shutdown-missed-raced",
           "end-after-drain-blocking": "shutdown-missed-raced",
           "expired-shutdown": "obs:export-after-shutdown-returned-error"}
+
+
+# BSP.tla's names of the known deviations <-> the contract monitor's kinds (agreement statistics of impl-trace)
+MODEL2CONTRACT = {"D1-flush-during-shutdown": "flush-missed-during-shutdown", "D4-enqueue-after-drain": "shutdown-missed-raced",
+                  "D6-flush-nil-without-marker": "flush-missed-ctx-done-no-marker",
+                  "D7-shutdown-nil-while-expired-drain-runs": "shutdown-nil-while-expired-drain-runs"}
+MODEL_KINDS = set(MODEL2CONTRACT.values()) | {"flush-missed", "shutdown-missed", "concurrent-export", "batch-too-large",
+                                              "export-after-shutdown", "export-without-deadline"}
+IMPL_KEY = ("producers", "spansPer", "qcap", "maxbatch", "blocking", "exportTimeout", "flushers", "stoppers", "expiring")
+
+
+def once_overtaken(recs):
+    """the Shutdown call that ran the sync.Once body is not the one whose Call line came first"""
+    first = next((r["proc"] for r in recs if r["ev"] == "Call" and r.get("op") == "SD"), None)
+    body = next((r["proc"] for r in recs if r["ev"] == "Pt" and r["point"] == "bsp.sd.stopped"), None)
+    return first is not None and body is not None and first != body
+
+
+def impl_validate(ctx, sources, contract_kinds, max_groups, per_group, jobs=6, max_lines=12000, prefer=once_overtaken, nprefer=3):
+    """Trace_BSPImpl.tla: a sample of the recorded scenarios must be explainable by BSP.tla's own actions.
+    sources = [(trace file, "scripts" | "random")]; max_groups / per_group = {"behaviours" | "directed" | "random": n}. Scenarios are grouped by their constants
+    (one TLC start per group, LCfg resets the state between scenarios). Drift (a scenario no sequence of model
+    actions explains) is evidence, never a verdict. Scenarios for which `prefer` holds (rare interleavings that once
+    showed a coarseness of BSP.tla) are added to the seeded sample, at most `nprefer` per source."""
+    t0 = time.time()
+    scen, cfgs, work = {}, {}, []
+    stats = {"eligible": {}, "scenarios": 0, "accepted": 0, "drift_count": 0, "drift": [], "monitor": [], "errors": [],
+             "lines": 0, "states": 0, "tlc_starts": 0, "groups": 0, "agree": 0, "disagree": [], "by_source": {}}
+    for tf, label in sources:
+        order = []
+        for ln in open(tf):
+            if '"sc":' not in ln:
+                continue
+            r = json.loads(ln)
+            key = (label, r["sc"])
+            if r["ev"] == "Cfg":
+                cfgs[key] = r
+                scen[key] = []
+                order.append(key)
+            if key in scen:
+                scen[key].append((ln, r))
+        # eligible: a batch processor scenario recorded with Pt lines, every goroutine returned, no goroutine of an earlier
+        # scenario still around (its bsp.drain.empty could not be told from this scenario's)
+        elig = [k for k in order if cfgs[k].get("kind") == "batch" and cfgs[k].get("pts") and cfgs[k].get("clean")
+                and scen[k][-1][1]["ev"] == "EndScenario" and scen[k][-1][1].get("quiescent") and len(scen[k]) <= 3000]
+        # three sources: TLC behaviours and directed schedules (both in the scripts file), random scenarios
+        for sub in (("behaviours", "directed") if label == "scripts" else (label,)):
+            el = [k for k in elig if label != "scripts" or cfgs[k].get("name", "").startswith("sim-") == (sub == "behaviours")]
+            stats["eligible"][sub] = len(el)
+            groups = {}
+            for k in el:
+                groups.setdefault(json.dumps([cfgs[k][x] for x in IMPL_KEY]), []).append(k)
+            rnd = random.Random(ctx.seed * 7919 + len(el))
+            gkeys = sorted(groups)
+            rnd.shuffle(gkeys)
+            n = 0
+            for gk in gkeys[:max_groups[sub]]:
+                ks = list(groups[gk])
+                rnd.shuffle(ks)
+                ks = sorted(ks[:per_group[sub]])
+                chunk, nl = [], 0
+                for k in ks:     # bound the size of one trace file
+                    if chunk and nl + len(scen[k]) > max_lines:
+                        work.append((sub, chunk))
+                        chunk, nl = [], 0
+                    chunk.append(k)
+                    nl += len(scen[k])
+                if chunk:
+                    work.append((sub, chunk))
+                n += len(ks)
+            chosen = {k for lb, ch in work if lb == sub for k in ch}
+            extra = {}
+            for k in [k for k in el if k not in chosen and prefer([r for _, r in scen[k]])][:nprefer]:
+                extra.setdefault(json.dumps([cfgs[k][x] for x in IMPL_KEY]), []).append(k)
+            for ks in extra.values():
+                work.append((sub, ks))
+                n += len(ks)
+            stats["preferred"] = stats.get("preferred", 0) + sum(len(ks) for ks in extra.values())
+            stats["by_source"][sub] = {"scenarios": n, "accepted": 0, "drift": 0}
+            stats["scenarios"] += n
+    stats["groups"] = len(work)
+
+    def one(gi, label, keys):
+        out = {"label": label, "accepted": [], "drift": [], "monitor": [], "errors": [], "lines": 0, "states": 0, "starts": 0, "bad": {}}
+        rest = list(keys)
+        while rest:
+            f = os.path.join(ctx.work, "impl-%d.ndjson" % gi)
+            spans, n = [], 0
+            with open(f, "w") as w:
+                for k in rest:
+                    w.writelines(ln for ln, _ in scen[k])
+                    spans.append((k, n + 1, n + len(scen[k])))
+                    n += len(scen[k])
+            r = ctx.tlc(S, "Trace_BSPImpl", "Trace_BSPImpl.cfg", workers=1, deque=True, timeout=300, heap="2g",
+                        extra_files={"trace.ndjson": f}, name="impl-%d" % gi, must_pass=False, count=False)
+            out["starts"] += 1
+            out["states"] += r["distinct"]
+            acc = hwm = inv = None
+            for pr in r["prints"]:
+                if not isinstance(pr, str):
+                    continue
+                if pr.startswith("ACCEPTED "):
+                    acc = int(pr.split()[1])
+                elif pr.startswith("HWM "):
+                    hwm = int(pr.split()[1])
+                elif pr.startswith("IMPLINV "):
+                    inv = json.loads(pr[8:])
+                elif pr.startswith("IMPLEND "):
+                    d = json.loads(pr[8:])
+                    k = next((k for k, a, b in spans if a <= d["line"] <= b), None)
+                    out["bad"].setdefault(k, []).append(sorted(d["bad"]))
+            if acc == n:
+                out["accepted"] += [k for k, _, _ in spans]
+                out["lines"] += n
+                break
+            if r["violated"] and inv is not None:
+                # an invariant of BSP.tla broken while explaining a REAL trace: evidence (the contract stage judges the
+                # same trace and is the verdict); go on with the scenarios behind it
+                at, what = max(1, inv["line"]), {"broken": sorted(inv["broken"]), "bad": sorted(inv["bad"])}
+            elif r["timed_out"] or r["error"] or r["violated"] or hwm is None:
+                out["errors"].append({"group": gi, "scenarios": [k[1] for k in rest], "source": label,
+                                      "error": r["error"] or r["violated"] or ("timeout" if r["timed_out"] else "no verdict"), "out": r["out"]})
+                break
+            else:
+                at, what = hwm, None      # stuck: the scenario holding line `hwm` is the first one no explanation gets through
+            i = next((i for i, (_, a, b) in enumerate(spans) if a <= at <= b), len(spans) - 1)
+            k, a, b = spans[i]
+            out["accepted"] += [x for x, _, _ in spans[:i]]
+            out["lines"] += a - 1
+            ev = scen[k][min(at - a, len(scen[k]) - 1)][1]
+            rec = {"scenario": k[1], "source": label, "name": cfgs[k].get("name", ""), "line_in_scenario": at - a + 1,
+                   "first_offending_line": ev, "cfg": {x: cfgs[k][x] for x in IMPL_KEY}}
+            if what is None:
+                # the lines around it make the evidence readable without the trace file
+                rec["context"] = [x for _, x in scen[k][max(0, at - a - 6):at - a + 2]]
+                out["drift"].append(rec)
+            else:
+                rec.update(what)
+                out["monitor"].append(rec)
+            rest = [x for x, _, _ in spans[i + 1:]]
+        return out
+
+    with ThreadPoolExecutor(max_workers=jobs) as ex:
+        outs = list(ex.map(lambda x: one(x[0], x[1][0], x[1][1]), list(enumerate(work))))
+    for o in outs:
+        stats["accepted"] += len(o["accepted"])
+        stats["by_source"][o["label"]]["accepted"] += len(o["accepted"])
+        stats["by_source"][o["label"]]["drift"] += len(o["drift"])
+        for x in ("lines", "states"):
+            stats[x] += o[x]
+        stats["tlc_starts"] += o["starts"]
+        for x in ("drift", "monitor", "errors"):
+            stats[x] += o[x]
+        # second opinion: what BSP.tla's own monitor sees broken on this real trace against what the contract monitor
+        # reported for the same scenario (some explanation of the trace must agree)
+        for k in o["accepted"]:
+            want = sorted(x for x in contract_kinds.get(k, ()) if x in MODEL_KINDS)
+            got = [sorted({MODEL2CONTRACT.get(b, b) for b in bad}) for bad in o["bad"].get(k, [])]
+            if want in got:
+                stats["agree"] += 1
+            elif len(stats["disagree"]) < 5:
+                stats["disagree"].append({"scenario": k[1], "source": k[0], "name": cfgs[k].get("name", ""), "contract": want, "model": got[:3]})
+    stats["drift_count"] = len(stats["drift"])
+    stats["monitor_count"] = len(stats["monitor"])
+    stats["error_count"] = len(stats["errors"])
+    stats["drift"] = stats["drift"][:5]
+    stats["monitor"] = stats["monitor"][:5]
+    stats["errors"] = stats["errors"][:3]
+    stats["wall_s"] = round(time.time() - t0, 1)
+    return stats
 
 
 def scenario(d, blocking=False):
@@ -201,6 +385,26 @@ def run(ctx):
     thorough = ctx.tier == "thorough"
     binp = ctx.go_build("c01")
     # ------------------------------------------------------------ exhaustive model checking
+    # liveness under fairness: every call returns and every background goroutine finishes, with queues that fill
+    # (these runs and the SSP one feed nothing else: they run beside the safety family below and are collected --
+    # with their verdicts -- before the real code is driven, so that the harness has the machine to itself)
+    live = [(2, 1, 1, 1, True, 1, 1), (2, 1, 1, 1, False, 1, 1)]
+    if thorough:
+        live += [(1, 3, 1, 1, True, 1, 1), (2, 1, 2, 1, False, 1, 2)]  # (2x2 blocking with a flusher: 1.8 M states, 14 min)
+    # growth: the simple span processor obeys the same contract (SSP.tla, safety + liveness)
+    ssp = {"PRODUCERS": tla_set(["p1", "p2", "p3"] if thorough else ["p1", "p2"]), "STOPPERS": tla_set(["s1", "s2"]),
+           "SPANSPER": 2}
+
+    def side_runs():
+        for c in live:
+            ctx.tlc(S, "MC_BSP", "MC_BSP_live.cfg", defines=mc_defs(*c), name="live-" + cfg_name(*c), timeout=3000, heap=side_heap)
+        ctx.tlc(S, "MC_BSP", "MC_BSP_live.cfg", defines=mc_defs(1, 1, 1, 1, True, 1, 1, expiring=("f1", "s1")),
+                name="live-expiring", timeout=3000, heap=side_heap)
+        ctx.tlc(S, "MC_SSP", "MC_SSP.cfg", defines=ssp, name="mc-ssp", timeout=1200, heap=side_heap)
+    side_heap = "6g" if thorough else "3g"     # two JVMs run side by side now: cap the second one (<= 0.5 M states here)
+    side_pool = ThreadPoolExecutor(max_workers=1)
+    side = side_pool.submit(side_runs)
+
     # (p, k, q, b, blocking, f, s, extra): every config checks the contract, the accounting of the hook events
     # and `Stuck` (nothing blocks forever) for the current code shape
     fam = [((2, 1, 1, 1, False, 1, 1), {}), ((2, 1, 1, 1, True, 1, 1), {}), ((2, 1, 2, 2, False, 1, 2), {}),
@@ -257,19 +461,8 @@ def run(ctx):
     if r["violated"] != "NoDup":
         ctx.note_inconclusive("model drift: keeping the batch after a failed export does not violate NoDup (%s)" % r["out"])
     ctx.extra["model_level_regressions"] = found
-    # liveness under fairness: every call returns and every background goroutine finishes, with queues that fill
-    live = [(2, 1, 1, 1, True, 1, 1), (2, 1, 1, 1, False, 1, 1)]
-    if thorough:
-        live += [(1, 3, 1, 1, True, 1, 1), (2, 1, 2, 1, False, 1, 2)]  # (2x2 blocking with a flusher: 1.8 M states, 14 min)
-    for c in live:
-        ctx.tlc(S, "MC_BSP", "MC_BSP_live.cfg", defines=mc_defs(*c), name="live-" + cfg_name(*c), timeout=3000)
-    ctx.tlc(S, "MC_BSP", "MC_BSP_live.cfg", defines=mc_defs(1, 1, 1, 1, True, 1, 1, expiring=("f1", "s1")),
-            name="live-expiring", timeout=3000)
-
-    # growth: the simple span processor obeys the same contract (SSP.tla, safety + liveness)
-    ssp = {"PRODUCERS": tla_set(["p1", "p2", "p3"] if thorough else ["p1", "p2"]), "STOPPERS": tla_set(["s1", "s2"]),
-           "SPANSPER": 2}
-    ctx.tlc(S, "MC_SSP", "MC_SSP.cfg", defines=ssp, name="mc-ssp", timeout=1200)
+    side.result()     # liveness / SSP runs started above (a model-level failure there raises Inconclusive here)
+    side_pool.shutdown()
 
     # ------------------------------------------------------------ spec -> code: behaviours as gate scripts
     scenarios = []
@@ -310,7 +503,8 @@ def run(ctx):
     n = 3000 if thorough else 250
     t2 = os.path.join(ctx.work, "trace-random.ndjson")
     r2 = os.path.join(ctx.work, "res-random.json")
-    ctx.run([binp, "random", "-n", str(n), "-out", t2, "-res", r2], timeout=3000)
+    npt = 400 if thorough else 40     # the first scenarios also record Pt lines (input of the impl-trace stage)
+    ctx.run([binp, "random", "-n", str(n), "-pt", str(npt), "-out", t2, "-res", r2], timeout=3000)
     res2 = json.load(open(r2))
     counters = {}
     for res in (res1, res2):
@@ -330,6 +524,7 @@ def run(ctx):
     by_name = {}
     observations = {}
     cfg_names = {}
+    kinds_of = {}     # (label, scenario number) -> contract kinds (agreement statistics of impl-trace)
 
     def scen_name(tf, v):
         if tf not in cfg_names:
@@ -346,6 +541,7 @@ def run(ctx):
         for v in viols:
             kind = v["v"]["kind"]
             kinds[kind] = kinds.get(kind, 0) + 1
+            kinds_of.setdefault((label, v["sc"]), set()).add(kind)
             if kind.startswith("obs:"):  # reported by the contract as an observation: counted, never a violation
                 observations[kind] = observations.get(kind, 0) + 1
                 by_name.setdefault(scen_name(tf, v), set()).add(kind)
@@ -358,7 +554,8 @@ def run(ctx):
                 rec = json.loads(ln)
                 if rec.get("sc") != v["sc"]:
                     break
-                scen.append(rec)
+                if rec["ev"] != "Pt":
+                    scen.append(rec)
                 if rec["ev"] == "Cfg":
                     cfg = rec
             scen.reverse()
@@ -370,6 +567,30 @@ def run(ctx):
     ctx.extra["observations"] = observations
     ctx.traces_validated += res1["executed"] + res2["executed"]
     ctx.evaluations += res1["executed"] + res2["executed"]
+    # ------------------------------------------------------------ code -> spec, second level: BSP.tla's own actions
+    # VERDICT RULE: a trace the contract accepts but BSP.tla cannot explain is model drift -- evidence and a NOTE, never
+    # exit 1, and exit 2 only if EVERY sampled trace drifts (then the trace spec itself is what is broken)
+    if thorough:
+        mg, pg = dict(behaviours=7, directed=40, random=150), dict(behaviours=400, directed=12, random=1)
+    else:
+        mg, pg = dict(behaviours=3, directed=3, random=3), dict(behaviours=12, directed=2, random=1)    # + preferred
+    iv = impl_validate(ctx, [(t1, "scripts"), (t2, "random")], kinds_of, mg, pg, jobs=8)
+    ctx.extra["impl_trace"] = iv
+    ctx.traces_validated += iv["accepted"]
+    print("impl-trace: %d scenarios sampled, %d explained by BSP.tla's actions, %d drift, %d monitor, %d TLC errors "
+          "(%d states, %d TLC starts, %.1f s)" % (iv["scenarios"], iv["accepted"], iv["drift_count"], iv["monitor_count"],
+                                                 iv["error_count"], iv["states"], iv["tlc_starts"], iv["wall_s"]), flush=True)
+    for d in iv["drift"]:
+        print("NOTE: model drift (not a verdict): BSP.tla cannot explain %s scenario %d %s at its line %d: %s"
+              % (d["source"], d["scenario"], d["name"], d["line_in_scenario"], json.dumps(d["first_offending_line"])), flush=True)
+    for d in iv["monitor"]:
+        print("NOTE: BSP.tla's invariants %s broken while explaining %s scenario %d %s (evidence; the contract stage is the verdict)"
+              % (d["broken"], d["source"], d["scenario"], d["name"]), flush=True)
+    if iv["scenarios"] and iv["drift_count"] == iv["scenarios"]:
+        ctx.note_inconclusive("impl-trace: BSP.tla explains none of the %d sampled real traces (first: %s)"
+                              % (iv["scenarios"], json.dumps(iv["drift"][0]["first_offending_line"])))
+    elif iv["scenarios"] and iv["accepted"] == 0 and iv["error_count"]:
+        ctx.note_inconclusive("impl-trace: TLC could not run Trace_BSPImpl on any sampled trace (%s)" % iv["errors"][0]["error"])
     # the directed schedules must actually reproduce the known deviations (binding check; a note, not a verdict)
     not_repro = [n_ for n_, k in EXPECT.items() if k not in by_name.get(n_, ())]
     if not_repro:
@@ -395,6 +616,7 @@ def run(ctx):
         "Dropped / Ignored / Abandoned / FFEarly / FFMarker events come from the verif hooks in sdk/trace/batch_span_processor.go; "
         "the dropped counter is read from the hook and from the SDK's `exporting spans` debug line",
         "goroutines blocked forever (former D2/D3) are C15's verdict; here such scenarios are marked non-quiescent",
+        "impl-trace covers a seeded sample of the recorded scenarios; model drift and monitor disagreements are evidence only",
     ]
     # X02: inductive proof (Apalache, symbolic constants) of the parameterised core D this spec generalises -- thorough tier,
     # evidence only: nothing in here can change the verdict or the exit code of this check (see checks/inductive.py)
